@@ -34,6 +34,8 @@ NeverStuck    == p <= Len(w) => NextTok(S, AL, p).k # "None"
 AbsWhenDone   == p > Len(w) => AbsReasons(S, toks) = {}
 FunctionalEq  == p > Len(w) => toks = Tokenize(S, AL)
 StepBound     == Len(toks) <= Len(w)
+\* the premise of TokenizerProof.tla (TLAPS, any length): from every position the scanner ends strictly further on
+ScannerAdvances == \A q \in 1..Len(w) : NextTok(S, AL, q).e \in (q + 1)..(Len(w) + 1)
 \* --- action property / liveness ---
 Progress  == [][p' > p \/ UNCHANGED vars]_vars
 Terminates == <>(p > Len(w))
